@@ -127,6 +127,16 @@ def run(ctx):
             tc = ctx.true_conditions(pred) if pred is not None else None
             ok = tc is not None and len(tc) == 1 and any(re.search(r"\.skip=False$", a) for a in tc[0])
             why = "candidates come from %s; filter keeps a variant under %s" % (recv[:100], tc)
+        if not cand:
+            # the same list built by a loop: one push of variant.as_name() per non-skipped variant
+            lp = [(g, h) for g in [f] + ctx.local_callees(f) for h in ctx.per_element(g, r"Vec::<.*>::push$")
+                  if h["form"] == "loop" and re.search(r"Variant::<'a>::as_name\(|Variant::as_name\(|::as_name\(", ctx.expr(h["owner"], h["t"]["args"][1]))]
+            if len(lp) == 1:
+                g, h = lp[0]
+                ds = ctx.pc_strs(h["owner"], h["blk"])
+                about = [[a for a in d if ".skip" in a] for d in ds]
+                ok = bool(ds) and all(len(x) == 1 and x[0].endswith(".skip=False") for x in about)
+                why = "candidates pushed in a loop over %s under %s" % (h["source"][:100], about)
         ctx.ob("C17.S.variant-candidates-vs-arms", f.key, "suggestion candidates exclude skipped variants", ok,
                "F9: match arms are emitted for non-skipped variants only (C09.G.skipped-variant-emits-nothing); the did-you-mean candidates must be the same variants: %s" % why)
     # parent names go only to the flatten initialiser
@@ -140,7 +150,7 @@ def run(ctx):
                 for a in t["args"][1:2]:
                     e = ctx.expr(b, a)
                     if e == '"add_sibling_alts_for_unknown_field"':
-                        emitters.add(b.key)
+                        emitters.add(common.owner_key(b.key))
     ctx.ob("C17.who.parent-names-only-to-flatten", "template token add_sibling_alts_for_unknown_field", "emitting generators",
            emitters == {common.TOK % "field::FlattenInitializer<'_>"}, "%s" % sorted(emitters))
     f = ctx.fn(common.TOK % "field::FlattenInitializer<'_>")
